@@ -796,6 +796,7 @@ where
     #[cfg(bpaf_verif)]
     crate::verif::tick();
     let mut orig_args = args.clone();
+    args.env_used = false;
     match parser.eval(args) {
         // we keep including values for as long as we consume values from the argument
         // list or at least one value
@@ -823,6 +824,7 @@ where
             // failed on a value that did not come from it (an environment variable): items given
             // on the command line take precedence, the variable is not consulted at all
             let beside_the_line = *len != usize::MAX
+                && args.env_used
                 && orig_args.len() == args.len()
                 && matches!(
                     err,
